@@ -131,11 +131,40 @@ func VerifWellFormed(v Value) error {
 	return verifWF(v.ty, v.v, true, "")
 }
 
+// verifHasOptional inspects the type representation directly (it must not rely
+// on the library function whose result it is used to judge).
+func verifHasOptional(ty Type) bool {
+	switch impl := ty.typeImpl.(type) {
+	case typeObject:
+		if len(impl.AttrOptional) > 0 {
+			return true
+		}
+		for _, aty := range impl.AttrTypes {
+			if verifHasOptional(aty) {
+				return true
+			}
+		}
+	case typeTuple:
+		for _, ety := range impl.ElemTypes {
+			if verifHasOptional(ety) {
+				return true
+			}
+		}
+	case typeList:
+		return verifHasOptional(impl.ElementTypeT)
+	case typeSet:
+		return verifHasOptional(impl.ElementTypeT)
+	case typeMap:
+		return verifHasOptional(impl.ElementTypeT)
+	}
+	return false
+}
+
 func verifWF(ty Type, raw interface{}, markerOK bool, at string) error {
 	if ty == NilType {
 		return fmt.Errorf("%s: nil type", at)
 	}
-	if !ty.WithoutOptionalAttributesDeep().Equals(ty) {
+	if verifHasOptional(ty) {
 		return fmt.Errorf("%s: type %#v carries optional-attribute annotations", at, ty)
 	}
 	if mr, ok := raw.(marker); ok {
